@@ -31,6 +31,14 @@ pub struct Case {
     pub exact: bool,
     /// use X, Y, Z as the first three variables
     pub xyz: bool,
+    /// every equation mentions every parameter (no absent coefficients)
+    #[serde(default)]
+    pub dense: bool,
+    /// per equation: where the sum of terms starts (mod n) and, in the top bit,
+    /// whether it runs backwards — equations over the same variables then meet
+    /// them in different orders, so their tapes number the variables differently
+    #[serde(default)]
+    pub term_order: Vec<u8>,
 }
 
 pub struct P;
@@ -59,7 +67,13 @@ fn system(case: &Case) -> System {
             if i != j {
                 let k = case.off[(i * n + j) % case.off.len()];
                 // roughly 60% of the off-diagonal entries are absent
-                let v = if k % 5 < 3 { 0.0 } else { k as f64 * unit };
+                let v = if case.dense {
+                    (if k == 0 { 1 } else { k }) as f64 * unit
+                } else if k % 5 < 3 {
+                    0.0
+                } else {
+                    k as f64 * unit
+                };
                 a[i][j] = v;
                 s += v.abs();
             }
@@ -83,7 +97,13 @@ fn run<F: MathFunction>(case: &Case, sys: &System) -> Result<(HashMap<Var, f32>,
     let mut eqs = vec![];
     for i in 0..n {
         let mut acc = ctx.constant(-(sys.b[i] as f32));
-        for j in 0..n {
+        let ord = case.term_order.get(i % case.term_order.len().max(1)).copied().unwrap_or(0);
+        for t in 0..n {
+            let j = if ord & 128 != 0 {
+                (ord as usize + n - t % n) % n
+            } else {
+                (ord as usize + t) % n
+            };
             if sys.a[i][j] != 0.0 {
                 let v = ctx.var(var_of(case, j));
                 let t = ctx.mul(v, sys.a[i][j] as f32).unwrap();
@@ -182,8 +202,10 @@ impl Prop for P {
             vec(-20i8..=20, 40..=40),
             prop::bool::weighted(0.15),
             any::<bool>(),
+            prop::bool::weighted(0.25),
+            prop_oneof![1 => Just(vec![]), 2 => vec(any::<u8>(), 1..=40)],
         )
-            .prop_map(|(n, off, sol, mut fixed, start, exact, xyz)| {
+            .prop_map(|(n, off, sol, mut fixed, start, exact, xyz, dense, term_order)| {
                 // at least one free parameter
                 let nn = n as usize;
                 if (0..nn).all(|j| fixed[j % fixed.len()]) {
@@ -197,6 +219,8 @@ impl Prop for P {
                     start,
                     exact,
                     xyz,
+                    dense,
+                    term_order,
                 }
             })
             .boxed()
@@ -225,6 +249,12 @@ impl Prop for P {
         cx.ev.count(&format!("free_mod3_{}", nfree % 3));
         if case.exact {
             cx.ev.count("exact_start_cases");
+        }
+        if case.dense {
+            cx.ev.count("dense_systems_every_equation_uses_every_parameter");
+        }
+        if !case.term_order.is_empty() {
+            cx.ev.count("equations_with_permuted_term_order");
         }
         let omits = (0..n).any(|i| (0..n).any(|j| sys.a[i][j] == 0.0 && !case.fixed[j % case.fixed.len()]));
         if nfree % 3 != 0 && nfree < n && omits {
@@ -255,7 +285,9 @@ impl Prop for P {
          k/16 with about 60% absent (each equation uses its own subset of the variables), diagonal = ceil(2 * row sum + 1) \
          (strongly diagonally dominant, hence well conditioned), a known solution k/4, a generated ~30% subset of the \
          parameters Fixed at their solution values (at least one stays free), the rest Free from generated starts; 15% of \
-         the cases use integer data and start exactly at the solution; variables are X, Y, Z or arbitrary Var::V; both \
+         the cases use integer data and start exactly at the solution; variables are X, Y, Z or arbitrary Var::V; a quarter of the systems are dense (every equation mentions every \
+         parameter); two thirds sum each equation's terms from its own starting variable, forwards or backwards, so that tapes \
+         over the same variables number them differently; both \
          back ends. Oracle: the result has a value for exactly the free parameters; the residual of the ORIGINAL system \
          with fixed values substituted is <= 1e-3 (1 + |b|); exact-start systems return the start bit-for-bit; the two \
          back ends agree to 1e-3. Non-trivial = the number of free parameters is not a multiple of three, at least one \
